@@ -26,7 +26,7 @@ from .world import ABSENT_IDX, World
 from disk_objectstore import Container
 from disk_objectstore.exceptions import NotExistent
 
-FAULTABLE = {'open.w', 'open.r', 'f.write', 'f.flush', 'f.truncate', 'os.fsync', 'os.rename', 'os.replace', 'os.link',
+FAULTABLE = {'open.w', 'open.r', 'f.write', 'f.flush', 'f.close.w', 'f.truncate', 'os.fsync', 'os.rename', 'os.replace', 'os.link',
              'os.unlink', 'os.remove', 'os.mkdir', 'fcntl', 'sql.commit'}
 
 
@@ -105,12 +105,12 @@ def scenarios(tier: str):
         for mode in ('KEEP', 'YES', 'NO', 'AUTO'):
             add(f'repack-{mode}', pre, ('repack', mode), ('quick',) if pre in ('mixed', 'packed-holes') and mode in ('KEEP', 'YES') else ())
         add('repack_pack0-NO', pre, ('repack_pack', 0, 'NO'), ('quick',) if pre == 'packed-holes' else ())
-        add('import-same', pre, ('import', (0, 1, 2, 3), False, 104857600, 'same'), t)
-        add('import-other-smallbudget', pre, ('import', (0, 1, 2, 3), True, 13, 'other'))
+        add('import-same', pre, ('import', (N, 0, 1, 2, 3), False, 104857600, 'same'), t)
+        add('import-other-smallbudget', pre, ('import', (0, 1, N, 2, 3), True, 13, 'other'), ('quick',) if pre == 'packed-holes' else ())
         add('loosen-packed', pre, ('loosen', 3), t)
         if pre in ('both-forms', 'empty'):
             continue
-        add('import-same-budget13-compress', pre, ('import', (3, 0, 1, 2), True, 13, 'same'))
+        add('import-same-budget13-compress', pre, ('import', (3, N, 0, 1, 2), True, 13, 'same'))
         add('import-other-budget1', pre, ('import', (0, 1, 2, 3, ABSENT_IDX), False, 1, 'other'))
         add('repack_pack1-YES', pre, ('repack_pack', 1, 'YES'))
         add('pack-KEEP-perpack1', pre, ('pack', 'KEEP', True, True))
